@@ -1,6 +1,7 @@
 package main
 
 import (
+	"runtime"
 	"bufio"
 	"encoding/json"
 	"flag"
@@ -112,10 +113,10 @@ func cmdCheck(args []string) {
 			seed = n
 		}
 	}
-	timeout := 10
+	timeout := 30
 	all := false
 	if *tier == "thorough" {
-		timeout = 60
+		timeout = 120
 		all = true
 	}
 	t0 := time.Now()
@@ -184,7 +185,7 @@ func cmdCheck(args []string) {
 		}
 	}
 	srs := make([]*SolveResult, len(jobs))
-	sem2 := make(chan struct{}, 16)
+	sem2 := make(chan struct{}, solverPar())
 	for i, j := range jobs {
 		i, j := i, j
 		wg.Add(1)
@@ -204,7 +205,7 @@ func cmdCheck(args []string) {
 	known, fixed := readKnown(filepath.Join(*verifDir, "known_findings.txt"))
 	isKnown := func(obl string) *knownFinding {
 		for i := range known {
-			if known[i].Prop == *prop && known[i].Obl == obl {
+			if known[i].Prop == *prop && (known[i].Obl == obl || strings.HasPrefix(obl, known[i].Obl+"@r")) {
 				return &known[i]
 			}
 		}
@@ -223,6 +224,9 @@ func cmdCheck(args []string) {
 	for i, sr := range srs {
 		o := jobs[i].o
 		oblSeen[o.Name] = true
+		if k := strings.Index(o.Name, "@r"); k > 0 && strings.Contains(o.Name, "/post.") {
+			oblSeen[o.Name[:k]] = true
+		}
 		rep := oblReport{Name: o.Name, Kind: o.Kind, Status: sr.Status, Solver: sr.Solver, TimeS: sr.Time, Where: o.Where, Hash: sr.Hash}
 		reports = append(reports, rep)
 		solverTime += sr.Time
@@ -403,3 +407,15 @@ func writeEvidenceFail(dir, prop, tier string, seed int, wall float64, msg strin
 }
 
 // tryReplay: see replay.go
+
+// solverPar: obligations solved concurrently (each races three solvers).
+func solverPar() int {
+	n := runtime.NumCPU() / 2
+	if n < 2 {
+		n = 2
+	}
+	if n > 8 {
+		n = 8
+	}
+	return n
+}
